@@ -64,6 +64,18 @@ CLAIMED = {
    note="Trusted: Lean kernel; planOfSchema and the package generator's independent type resolution; json.go's marshalling itself is not modelled (the schema text is taken from the tool). 'visit returns some for fuel > #definitions' is evaluated, not proved. Known finding: enum vs flags is not recorded.",
    technique="Lean 4 proof (reachability closure) + schema-only reconstruction of the encoding compared with independently resolved wire types",
    design="§7 C04"),
+ "C02": dict(
+   engine="json",
+   text="Lean model of the documented NDJSON mapping (toJ/fromJ, union tagging rule, omitted nullable fields, enum/flag symbols, maps, arrays). Kernel-checked so far: the JSON data type of every primitive's mapping is among the types GetJsonDataType announces, and the model's table of those types equals what the current source computes (regenerated by executing it). The full statement fromJ (toJ v) = v is evaluated by the Lean driver on every generated value (reported as a violation if false) but not yet proved for all values - this check is partial. Tied to generated C++ and Python by a writer leg (every NDJSON line written must denote the value toJ prescribes) and a reader leg (NDJSON rendered from toJ is read back to the same values), with stream items alternating optional presence.",
+   note="PARTIAL: the unbounded round-trip theorem is not proved yet (see DESIGN.md); decimal<->float conversion is delegated to CPython (floats are bit patterns in the model); C++ NDJSON legs exclude date/time/datetime (date.h stand-in).",
+   technique="Lean 4 model + kernel-checked table theorems; differential correspondence through generated C++/Python (partial proof)",
+   design="§7 C02"),
+ "C03": dict(
+   engine="wire",
+   text="Kernel-checked: the C++ and Python coded output streams refine the same byte-level specification for every capacity >= 10 and every operation sequence, hence emit identical bytes for the same writes; the Python writer never indexes outside its staging buffer; union index encodings (1 byte vs varint) agree exactly below 128 cases. Tied to generated code by pushing value sequences through every ordered pair of (language, format): C++/Python x binary/NDJSON, including three-stage chains, and decoding the result with the Lean reference decoder.",
+   note="Trusted: as C01/C02. MATLAB is not executed (covered by C14 only). Known finding: Python cannot represent some(none) of nested optionals. Unions with >= 128 cases (index encoding differs) are not exercised.",
+   technique="Lean 4 proof (writer refinement) + all-pairs differential correspondence",
+   design="§7 C03"),
 }
 NOT_YET = "machinery for this property is not built yet in this round (see DESIGN.md §10 build order)"
 checks, na = [], []
@@ -103,6 +115,8 @@ m = {
     "kind_free_text": "reader/writer step-order state machines (implementation encodings vs specification positions)"},
    {"name": "schema", "path": "lean/YardlModel/Schema.lean", "serves_properties": ["C04", "C15"],
     "kind_free_text": "planOfSchema: schema text -> resolved wire types; Closure.lean: model of the type collection"},
+   {"name": "json", "path": "lean/YardlModel/Json.lean", "serves_properties": ["C02", "C03"],
+    "kind_free_text": "NDJSON mapping toJ/fromJ + union tagging rule; harness/py/jsonlab.py renders/judges NDJSON text"},
    {"name": "wire", "path": "lean/YardlModel/Wire.lean", "serves_properties": ["C01", "C03", "C15", "C16", "C17"],
     "kind_free_text": "Lean model of the binary format + buffered stream implementations; line-protocol driver lean/Main/WireDriver.lean"},
  ],
